@@ -15,7 +15,7 @@ def pcmp : Option Int → Option Int → Ordering
   | none, none => .eq
   | none, some _ => .lt
   | some _, none => .gt
-  | some a, some b => compare a b
+  | some a, some b => if a < b then .lt else if a > b then .gt else .eq
 
 structure Interval where
   min : Int
